@@ -13,11 +13,13 @@ from harness import c13_gen
 from harness import schema_xml as SX
 
 PROP = "C13"
-# 1 = the code after the fix: commits for C13-F2, C13-F3, C13-F4 (model argument fixed=true, the oracle demands the
+# 1 = the code as it is: /repo with fix commits 02171e0 (C13-F2), bb02e3e (C13-F3), 9d4df4f (C13-F4) (model argument
+# fixed=true, the oracle demands the
 # full statement for these classes); 0 = the code before them (fixed=false, the three classes are accepted as the
 # recorded, repaired defects)
 FIXED = int(os.environ.get("VERIF_C13_FIXED", "1"))
-# 1 once fix-F5 (re-identify the tags against the validator's schema before the tag character check) is in the tree
+# 1 = the code as it is: fix commit 02f8597 (C13-F5: the tags are re-identified against the validator's schema before
+# the tag character check) is in /repo; 0 = the behaviour before it (the F5 class is then accepted as the recorded defect)
 FIXED5 = int(os.environ.get("VERIF_C13_FIXED_F5", "1"))   # fix: commit 02f8597 is in /repo
 LEGACY = {
     "C13-F2": {"property": "C13", "id": "C13-F2", "what": "(repaired; VERIF_C13_FIXED=0) check_tag_formatting applied "
@@ -54,21 +56,31 @@ TRUSTED = [
 ]
 ASSUMPTIONS = [
     "prefixed_equiv/unprefixed_equiv are proved for ALL groups, schemas (arbitrary resolver) and annotation trees of the "
-    "repaired code (fixed=true) with the remaining side conditions explicit: same character-rule generation of group and "
+    "repaired code (fixed=true = /repo with fix commits 02171e0, bb02e3e, 9d4df4f) with the remaining side conditions explicit: same character-rule generation of group and "
     "schema (unrepaired C13-F1, refuted without it), no matching required/unique names in the other schemas, remainders "
-    "are part of the tag text, other rules namespace-blind; the refutations of the unrepaired code (C13-F2/F3/F4) are kept "
-    "as records (fixed=false)",
+    "are part of the tag text, other rules namespace-blind; the refutations of the behaviour before those commits (C13-F2/F3/F4) are kept "
+    "as records of repaired defects (fixed=false)",
     "annotations are trees of tag texts: delimiter-level errors (parentheses, commas) are outside the model and only "
     "tested on the implementation",
     "partnered-contains-standard and the loader outcomes on the bundled schemas are kernel-evaluated (vm_compute) on "
     "translated data; the same relation over all tags is additionally enumerated on the implementation (testing)",
     "history theorems: (b) re-prefix/validate sequences -- proved for ALL sequences, cache-fill policies and groups; (a) an "
-    "object built under A and judged under B -- partial (hypotheses = absence of the known findings C13-F5, C13-F6), both "
-    "refuted by concrete witnesses that are replayed on the code",
+    "object built under A and judged under B -- for the code as it is (fix commit 02f8597 in /repo, fixed5=true) partial "
+    "with ONE hypothesis, the absence of the open finding C13-F6 (refuted by a witness replayed on the code); the "
+    "refutation of the behaviour before 02f8597 (C13-F5) is kept as the record of that repaired defect; the cache model "
+    "of (b) holds unprefixed entry names as the code does -- the variant caching prefixed names is refuted as a contrast",
+    "ASSUMED, not proved: every validation rule other than the six namespace-sensitive mechanisms is an arbitrary function "
+    "R1,R2,R3 required to be namespace-blind (RUniform, shown satisfiable by two instances); for the real rules (units, "
+    "value classes, definitions, duplicates, placement, temporal) this is tested only",
+    "partner merge: general theorems are conditional (no colliding name) or 'unchanged or a duplicate is recorded' for "
+    "ordinary names; unconditional for all forms incl. '#' nodes only on the five bundled pairings (kernel evaluation)",
     "unit classes, units and unit modifiers are NOT modelled: the equivalence over annotations with unit-class values "
     "(generated from the schema's own unit/modifier tables, well- and ill-formed) and over configurations with several "
     "libraries merged under one non-empty prefix is tested on the implementation only; the model proves only that the "
     "merged TAG table does not depend on the prefix",
+    "construction route is a generator dimension: multi-library configurations are also built step by step with "
+    "load_schema/from_string (schema_namespace= on the first library, schema= for the merges, namespace repeated or "
+    "not) and must behave as the load_schema_version form; the loader model proves the route equalities for the tag section",
     "'same library twice' is read as: the same version text twice under ONE prefix (the same library under two "
     "different prefixes is accepted by the code and by the model; both sides are tested)",
 ]
@@ -95,6 +107,8 @@ def fname(k):
 
 # configurations: (version list, {prefix: schema key})
 CONFIGS_QUICK = [
+    # the same kind of configuration built step by step with load_schema(..., schema=lib), namespace not repeated
+    (["~ls_merge", "8.2.0", "x:score_1.1.0", "x:testlib_2.0.0"], {"": "8_2_0", "x:": "score_1_1_0+testlib_2_0_0"}),
     # several partnered libraries merged under ONE non-empty prefix (the merge re-finalises a prefixed schema)
     (["8.2.0", "x:score_1.1.0", "x:testlib_2.0.0"], {"": "8_2_0", "x:": "score_1_1_0+testlib_2_0_0"}),
     (["8.2.0", "sc:score_1.1.0", "tl:testlib_2.0.0"], {"": "8_2_0", "sc:": "score_1_1_0", "tl:": "testlib_2_0_0"}),
@@ -125,12 +139,17 @@ CONFIGS_SINGLE = [
     (["score_1.1.0", "testlib_2.0.0"], {"": "score_1_1_0+testlib_2_0_0"}),
     (["tl:testlib_3.0.0"], {"tl:": "testlib_3_0_0"}),
     (["lib:score_1.1.0,testlib_2.1.0"], {"lib:": "score_1_1_0+testlib_2_1_0"}),      # text form, nothing unprefixed
+    (["~fs_merge", "lib:testlib_2.0.0", "lib:score_1.1.0"], {"lib:": "testlib_2_0_0+score_1_1_0"}),   # from_string route
 ]
 CONFIGS_SINGLE_MORE = [
     (["sc:score_2.0.0"], {"sc:": "score_2_0_0"}),
     (["@testlib_2_1_0"], {"": "testlib_2_1_0"}),
     (["xx:score_1.1.0", "xx:testlib_2.1.0"], {"xx:": "score_1_1_0+testlib_2_1_0"}),
     (["st:8.2.0", "ab:testlib_2.0.0,score_1.1.0"], {"st:": "8_2_0", "ab:": "testlib_2_0_0+score_1_1_0"}),
+    (["~ls_merge_repeat", "8.2.0", "x:score_1.1.0", "x:testlib_2.1.0"], {"": "8_2_0", "x:": "score_1_1_0+testlib_2_1_0"}),
+    (["~fs_merge_repeat", "sc:score_1.1.0", "sc:testlib_2.0.0", "8.2.0"], {"sc:": "score_1_1_0+testlib_2_0_0", "": "8_2_0"}),
+    (["~ls_merge", "score_1.1.0", "testlib_2.0.0"], {"": "score_1_1_0+testlib_2_0_0"}),
+    (["~fs_merge", "8.3.0", "sc:score_2.0.0"], {"": "8_3_0", "sc:": "score_2_0_0"}),
 ]
 
 
@@ -208,7 +227,46 @@ def gen_reprefix_ops(rng, n):
     return ops
 
 
+# Construction ROUTE of a configuration (an input dimension): a version list whose first element is "~route" is not
+# handed to load_schema_version but built step by step with the public loaders -- the first library of every prefix
+# with schema_namespace=..., the further ones merged into that object through the `schema=` parameter, with
+# ("_repeat") or without repeating the namespace; several objects are assembled with HedSchemaGroup.
+ROUTES = ["~ls_merge", "~ls_merge_repeat", "~fs_merge", "~fs_merge_repeat"]
+
+
+def version_file(v):
+    return ("HED" if "_" not in v else "HED_") + v + ".xml"
+
+
+def build_route(route, vlist, folder):
+    from hed.schema import load_schema, from_string
+    from hed.schema.hed_schema_group import HedSchemaGroup
+    groups = {}
+    for v in vlist:
+        ns, _, ver = v.partition(":") if ":" in v else ("", "", v)
+        for x in ver.split(","):
+            groups.setdefault(ns, []).append(os.path.join(folder, version_file(x)))
+    objs = []
+    for ns, files in groups.items():
+        obj = None
+        for f in files:
+            kw = {}
+            if obj is not None:
+                kw["schema"] = obj
+            if ns and (obj is None or route.endswith("_repeat")):
+                kw["schema_namespace"] = ns
+            if route.startswith("~fs"):
+                with open(f, encoding="utf8") as fh:
+                    obj = from_string(fh.read(), schema_format=".xml", **kw)
+            else:
+                obj = load_schema(f, **kw)
+        objs.append(obj)
+    return objs[0] if len(objs) == 1 else HedSchemaGroup(objs)
+
+
 def model_vlist(vlist):
+    """the version list the model is given for a configuration (routes and "@key" are the implementation's business)"""
+    vlist = [v for v in vlist if not v.startswith("~")]
     return [vkey(v[1:]) if v.startswith("@") else v for v in vlist]
 
 
@@ -231,8 +289,11 @@ def w_group(vlist):
     if len(k) == 1 and k[0].startswith("@"):
         return w_single(k[0][1:])
     if k not in _W["groups"]:
-        from hed.schema import load_schema_version
-        _W["groups"][k] = load_schema_version(list(vlist), xml_folder=_W["dir"])
+        if k[0].startswith("~"):
+            _W["groups"][k] = build_route(k[0], list(k[1:]), _W["dir"])
+        else:
+            from hed.schema import load_schema_version
+            _W["groups"][k] = load_schema_version(list(vlist), xml_folder=_W["dir"])
     return _W["groups"][k]
 
 
@@ -504,7 +565,7 @@ def t_cross(task):
             hs._calculate_to_canonical_forms(B)
             pre = judge(hs)
             if pre != fresh:
-                # What re-identification is DOCUMENTED to do in the code as it is (class C13-F6): each tag is looked up
+                # What re-identification is DOCUMENTED to do before fix commit 02f8597 (class C13-F6): each tag is looked up
                 # again from its current short form (the one of the entry it had under A), and an extension that the
                 # new lookup does not replace is kept.  Rebuilt here on a fresh object with B's own lookup function.
                 try:
@@ -520,7 +581,7 @@ def t_cross(task):
                 except Exception as ex:  # noqa
                     emul = [("EMUL-EXN:" + type(ex).__name__, 0)]
             if FIXED5:
-                # what the code WITH fix-F5 is documented to do for such an object (class C13-F6): exactly one
+                # what the code as it is (fix commit 02f8597) is documented to do for such an object (class C13-F6): exactly one
                 # re-identification from the current short form (old extension kept unless replaced), then all checks
                 # on that state.  Rebuilt on a fresh object with B's own lookup; its re-identification is a stub.
                 try:
@@ -1016,7 +1077,7 @@ def _run(rng, thorough, wide, res, model_ok, scratch):
               ["tl:testlib_2.0.0", "tl:score_1.1.0,testlib_2.0.0"], ["8.3.0", "8.3.0"], ["8.3.0", "tl:8.3.0", "sc:8.3.0"],
               ["sc:score_1.1.0", "tl:testlib_2.0.0", "sc:testlib_2.1.0", "8.2.0"], ["t-l:8.3.0"],
               ["8.2.0", "é:testlib_2.0.0"], ["ß:8.3.0"], ["Ab:8.3.0", "ab:8.2.0"]]
-    loads += [v for v, _ in configs]
+    loads += [model_vlist(v) for v, _ in configs]
     seen = set()
     loads = [l for l in loads if not (tuple(l) in seen or seen.add(tuple(l)))]
 
@@ -1210,7 +1271,7 @@ def _run(rng, thorough, wide, res, model_ok, scratch):
                     elif emul == pre:
                         fid = "C13-F6"
                 elif vlA != vlB and f6able and emul == cross:
-                    fid = "C13-F6"      # with fix-F5: the verdict is exactly that of the documented single re-identification
+                    fid = "C13-F6"      # since 02f8597: the verdict is exactly that of the documented single re-identification
                 res.report("built-under-A-judged-under-B-equals-fresh",
                            {"kind": "cross", "built_under": vlA, "judged_under": vlB, "text": t},
                            f"A-built={cross} fresh={fresh} A-built-after-reidentification={pre} documented-reidentification={emul}", fid=fid)
@@ -1521,6 +1582,14 @@ def replay(payload):
                     print("FAILS: re-prefixed object and freshly loaded schema disagree")
                     rc = 1
             return rc
+        if kind == "load" and case["vlist"] and case["vlist"][0].startswith("~"):
+            try:
+                g = w_group(case["vlist"])
+                print("built by route", case["vlist"], "->", getattr(g, "valid_prefixes", None))
+                return 0
+            except Exception as e:  # noqa
+                print("FAILS: building", case["vlist"], "step by step raised", type(e).__name__, getattr(e, "message", e))
+                return 1
         if kind == "load":
             r = t_load(case["vlist"])
             print("load_schema_version", case["vlist"], "->", r[:2])
